@@ -24,10 +24,13 @@ import (
 )
 
 // hostnames: kube style <n>.<ns>.svc.cluster.local, or a ServiceEntry host (short name, name.ns, name.ns.svc, external FQDN)
+// alphabet of symbolic names; the port-0 listener adds an upper-case letter (Envoy compares domains case-insensitively)
+var verifC14Alphabet = "ab"
+
 func verifC14Host(p string, symbolic bool) (string, string) {
 	var n string
 	if symbolic {
-		n = vp.StringIn(p+".name", 2, "ab")
+		n = vp.StringIn(p+".name", 2, verifC14Alphabet)
 		vp.Assume(n != "")
 	} else {
 		n = []string{"a", "b"}[vp.Choice(p+".name", 2)]
@@ -127,25 +130,101 @@ func VerifC14VhostDomains() {
 	}
 }
 
+// K1b: the same through a Sidecar HTTP_PROXY egress listener (all ports in one route configuration, hostnames not
+// lower-cased by the caller), with hostnames that differ in letter case: domains unique ignoring case, and a service
+// whose hostname is no other service's hostname (ignoring case) is routable by it.
+func VerifC14HTTPProxyListener() {
+	names := []string{"a", "A", "b"}
+	mk := func(i int) *model.Service {
+		p := vp.Name("svc", i)
+		n := names[vp.Choice(p+".name", len(names))]
+		ns := []string{"ns1", "ns2"}[vp.Choice(p+".ns", 2)]
+		var h string
+		switch vp.Choice(p+".form", 4) {
+		case 0:
+			h = n + "." + ns + ".svc.cluster.local"
+		case 1:
+			h = n
+		case 2:
+			h = n + "." + ns
+		default:
+			h = n + "." + ns + ".svc"
+		}
+		return &model.Service{Hostname: host.Name(h), CreationTime: time.Unix(int64(1000+i), 0),
+			Ports:      model.PortList{{Name: "http", Port: 80, Protocol: protocol.HTTP}},
+			Attributes: model.ServiceAttributes{Name: "s", Namespace: ns, ServiceRegistry: provider.External}}
+	}
+	svcs := []*model.Service{mk(0), mk(1)}
+	if svcs[0].Hostname == svcs[1].Hostname {
+		return
+	}
+	store := &model.VerifStore{Configs: map[config.GroupVersionKind][]config.Config{}}
+	store.Configs[gvk.Sidecar] = []config.Config{{
+		Meta: config.Meta{GroupVersionKind: gvk.Sidecar, Name: "http-proxy", Namespace: "ns1", CreationTimestamp: time.Unix(2000, 0)},
+		Spec: &networking.Sidecar{Egress: []*networking.IstioEgressListener{{
+			Port:  &networking.SidecarPort{Number: 7443, Protocol: "HTTP_PROXY", Name: "proxy"},
+			Hosts: []string{"*/*"},
+		}}},
+	}}
+	env := model.VerifWorld(&meshconfig.MeshConfig{RootNamespace: "istio-system"}, svcs, store)
+	push := model.NewPushContext()
+	push.InitContext(env, nil, nil)
+	node := &model.Proxy{Type: model.SidecarProxy, ConfigNamespace: "ns1", DNSDomain: "ns1.svc.cluster.local", IPAddresses: []string{"10.0.0.1"},
+		Metadata: &model.NodeMetadata{Namespace: "ns1"}, IstioVersion: model.MaxIstioVersion, ID: "p"}
+	node.SetSidecarScope(push)
+	vp.Reach("world")
+	vhosts, _, _ := BuildSidecarOutboundVirtualHosts(node, push, "7443", 7443, nil, model.DisabledCache{})
+	vp.Reach("built")
+	seen := map[string]bool{}
+	for _, vh := range vhosts {
+		vp.Assert(len(vh.Domains) > 0, "virtual-host-has-a-domain")
+		for _, d := range vh.Domains {
+			vp.Assert(!seen[strings.ToLower(d)], "virtual-host-domains-are-unique-ignoring-case")
+			seen[strings.ToLower(d)] = true
+		}
+	}
+	if strings.ToLower(string(svcs[0].Hostname)) != strings.ToLower(string(svcs[1].Hostname)) {
+		for _, svc := range svcs {
+			found := false
+			for _, vh := range vhosts {
+				if vh.Name == util.DomainName(string(svc.Hostname), 80) {
+					for _, d := range vh.Domains {
+						if d == string(svc.Hostname) {
+							found = true
+						}
+					}
+				}
+			}
+			vp.Assert(found, "every-service-is-routable-by-its-own-hostname")
+		}
+	}
+}
+
 // K1a, symbolic hostnames: the domain sets generated for two distinct services, de-duplicated in listener order as
 // BuildSidecarOutboundVirtualHosts does (shared vhdomains set, knownFQDN over all services), are disjoint, non-empty
 // strings, and de-duplication never takes a service's own hostname away from it.
 func VerifC14DomainKernel() {
-	a, b := verifC14Svc(0, true), verifC14Svc(1, true)
-	vp.Assume(a.Hostname != b.Hostname)
 	port := []int{80, 8080}[vp.Choice("port", 2)]
-	listenerPort := port
+	// listener port 0 = HTTP_PROXY/UDS style listener: domains with and without port, hostnames NOT lower-cased by the
+	// caller; for a numbered listener BuildSidecarOutboundVirtualHosts lower-cases the hostnames (servicesByName) first
+	listenerPort := []int{port, 0}[vp.Choice("listenerPort", 2)]
+	if listenerPort == 0 {
+		verifC14Alphabet = "abA"
+	} else {
+		verifC14Alphabet = "ab"
+	}
+	a, b := verifC14Svc(0, true), verifC14Svc(1, true)
+	// two services of the registry never share a hostname; hostnames that differ only in case are distinct services
+	vp.Assume(a.Hostname != b.Hostname)
 	nDNS := 2
 	if vp.Tier() > 0 {
-		// thorough: also the HTTP_PROXY/UDS style listener (port 0: domains with and without port) and more proxy domains
-		listenerPort = []int{port, 0}[vp.Choice("listenerPort", 2)]
 		nDNS = 4
 	}
 	node := &model.Proxy{Type: model.SidecarProxy, Metadata: &model.NodeMetadata{},
 		DNSDomain: []string{"ns1.svc.cluster.local", "com", "ns2.svc.cluster.local", ""}[vp.Choice("dnsDomain", nDNS)]}
 	vhdomains, knownFQDN := sets.String{}, sets.String{}
 	for _, s := range []*model.Service{a, b} {
-		knownFQDN.InsertAll(util.DomainName(string(s.Hostname), port), string(s.Hostname))
+		knownFQDN.InsertAll(strings.ToLower(util.DomainName(string(s.Hostname), port)), strings.ToLower(string(s.Hostname)))
 	}
 	var all [][]string
 	for _, s := range []*model.Service{a, b} {
@@ -158,16 +237,19 @@ func VerifC14DomainKernel() {
 			vp.Assert(d != "", "domain-is-not-empty")
 			own = vp.Or(own, d == string(s.Hostname))
 		}
-		vp.Assert(own, "service-keeps-its-own-hostname-as-a-domain")
+		// ... unless the two hostnames are the same name to Envoy (they differ only in case): then the first one wins
+		sameToEnvoy := strings.ToLower(string(a.Hostname)) == strings.ToLower(string(b.Hostname))
+		vp.Assert(vp.Or(own, sameToEnvoy), "service-keeps-its-own-hostname-as-a-domain")
 	}
+	// Envoy lower-cases domains before checking for duplicates
 	for _, x := range all[0] {
 		for _, y := range all[1] {
-			vp.Assert(x != y, "domains-of-distinct-services-are-disjoint")
+			vp.Assert(strings.ToLower(x) != strings.ToLower(y), "domains-of-distinct-services-are-disjoint")
 		}
 	}
 	for i, x := range all[1] {
 		for _, y := range all[1][i+1:] {
-			vp.Assert(x != y, "domains-of-one-virtual-host-are-distinct")
+			vp.Assert(strings.ToLower(x) != strings.ToLower(y), "domains-of-one-virtual-host-are-distinct")
 		}
 	}
 }
